@@ -356,6 +356,7 @@ class Norm:
     def __init__(self, prog: Program) -> None:
         self.prog = prog
         self._field_types: Dict[str, Type] = {}
+        self.opaque_funcs: set = set()  # fq names never inlined (kept as ('call', fq, args))
 
     # ------------------------------------------------------------ contexts
     def ctx_for(self, fi: FuncInfo, subst_locals: bool = True) -> Ctx:
@@ -581,7 +582,10 @@ class Norm:
         # private / protected field on self within the defining class (name mangling)
         if name.startswith("__") and not name.endswith("__"):
             owner = ctx.cls if ctx.cls is not None else ci
-            return ("fld", base, f"{owner.name}.{name}"), self.field_type(owner, name)
+            if name in owner.methods and not owner.methods[name].is_property:
+                return ("bound", base, name), ("method", owner.fq, name)
+            if name not in owner.methods:
+                return ("fld", base, f"{owner.name}.{name}"), self.field_type(owner, name)
         impls = self._impls(ci, name)
         own = self.prog.lookup_method(ci, name)
         if own is not None or impls:
@@ -632,7 +636,7 @@ class Norm:
     # -------------------------------------------------------------- inline
     def inline(self, fi: FuncInfo, recv: Optional[Term], args: Dict[str, Tuple[Term, Type]], ctx: Ctx) -> Term:
         """Symbolic return value of a small pure function; opaque ('call') when the body is not of that shape."""
-        if ctx.depth >= MAX_DEPTH or fi.fq in ctx._busy:
+        if ctx.depth >= MAX_DEPTH or fi.fq in ctx._busy or fi.fq in self.opaque_funcs:
             return self._opaque(fi, recv, args)
         sub = Ctx(fi.module, fi.cls, fi, {}, ctx.depth + 1, True, ctx._busy + (fi.fq,))
         params = fi.params
@@ -800,7 +804,12 @@ class Norm:
         left = self.term(node.left, ctx)
         for op, comp in zip(node.ops, node.comparators):
             right = self.term(comp, ctx)
-            parts.append(("cmp", _CMP[type(op)], left, right))
+            o = _CMP[type(op)]
+            if left[0] == "const" and right[0] == "const" and o in ("is", "is not", "==", "!=") and (left[1] is None or right[1] is None):
+                same = left[1] is right[1] or (left[1] is None) == (right[1] is None) and left[1] == right[1]
+                parts.append(("const", same if o in ("is", "==") else not same))
+            else:
+                parts.append(("cmp", o, left, right))
             left = right
         return mk_and(parts), ("prim", "bool")
 
@@ -895,6 +904,11 @@ class Norm:
                         self.prog, fi.module, fi.node.returns, fi.cls
                     )
             return ("xcall", f"super.{func.attr}", None, tuple(self.term(a, ctx) for a in node.args), ()), ANY
+        # gettext marker: _("msgid") is the msgid for table/label comparisons
+        if isinstance(func, ast.Name) and func.id == "_" and len(node.args) == 1 and not node.keywords:
+            inner, _ty = self.eval(node.args[0], ctx)
+            if inner[0] == "const" and isinstance(inner[1], str):
+                return inner, ("prim", "str")
         ft, fty = self.eval(func, ctx)
         # internal function / classmethod / staticmethod reference
         if fty and fty[0] == "func":
@@ -938,6 +952,10 @@ class Norm:
 
     @staticmethod
     def _ext_call_type(recv_ty: Type, name: str) -> Type:
+        if recv_ty and recv_ty[0] == "dict" and name in ("get", "setdefault", "pop"):
+            return recv_ty[2]
+        if recv_ty and recv_ty[0] == "dict" and name == "copy":
+            return recv_ty
         if recv_ty and recv_ty[0] == "ext":
             last = str(recv_ty[1]).split(".")[-1]
             if last == "datetime" and name == "date":
